@@ -57,9 +57,10 @@ type c20Case struct {
 	Recv     []int       `json:"recv"`
 	Pend     []int       `json:"pend"`
 	Finished bool        `json:"finished"`
-	FlushErr string      `json:"flush_err"` // class of the error of a Flush after the run
-	Oracle   []string    `json:"oracle"`    // C20 oracle failures
-	Oracle10 []string    `json:"oracle10"`  // C10 oracle failures (close semantics)
+	Ms       int64       `json:"ms,omitempty"` // wall time of the case (diagnosis of slow runs)
+	FlushErr string      `json:"flush_err"`    // class of the error of a Flush after the run
+	Oracle   []string    `json:"oracle"`       // C20 oracle failures
+	Oracle10 []string    `json:"oracle10"`     // C10 oracle failures (close semantics)
 	Feat     []string    `json:"feat"`
 }
 
@@ -104,6 +105,21 @@ type c20Cb struct {
 	local       int
 	remote      int
 	step        *int
+	limit       int // bytes that arrive in this case: nothing longer can legitimately be offered
+	overrun     int // largest r.Len() seen beyond the limit (0: none)
+}
+
+// c20See bounds what one invocation looks at: a mutated tree can link the whole free list into recvBuf (megabytes);
+// one byte more than ever arrived is enough for every oracle and for the comparison with the model, and keeps the
+// case (copying, JSON, the Coq evaluation) small.
+func (cb *c20Cb) c20See(n int) int {
+	if n > cb.limit {
+		if n > cb.overrun {
+			cb.overrun = n
+		}
+		return cb.limit + 1
+	}
+	return n
 }
 
 func (cb *c20Cb) OnData(r BufferReader) {
@@ -112,7 +128,7 @@ func (cb *c20Cb) OnData(r BufferReader) {
 	if cb.running > 1 {
 		cb.overlap = true
 	}
-	n := r.Len()
+	n := cb.c20See(r.Len())
 	seen := []int{}
 	if n > 0 {
 		p, _ := r.Peek(n)
@@ -132,7 +148,7 @@ func (cb *c20Cb) OnData(r BufferReader) {
 				cb.viewFreed = true
 			}
 		}
-		n = r.Len()
+		n = cb.c20See(r.Len())
 	}
 	k, cl := n, 0
 	if cb.next < len(cb.script) {
@@ -147,6 +163,11 @@ func (cb *c20Cb) OnData(r BufferReader) {
 		for _, x := range b {
 			cb.consumed = append(cb.consumed, int(x))
 		}
+		r.ReleasePreviousRead()
+	}
+	if cb.overrun > 0 && k == n {
+		// "everything": drop the rest without copying it (the case has failed already)
+		_, _ = r.Discard(r.Len())
 		r.ReleasePreviousRead()
 	}
 	for i := 0; i < cl; i++ {
@@ -185,6 +206,15 @@ func c20NewEnv() *c20Env {
 func (e *c20Env) close() {
 	e.client.Close()
 	e.server.Close()
+}
+
+// after a failed case the shared memory of the pair may be damaged (a double recycle, a chain linked into the free
+// list): the following cases get a fresh pair, so that one defect is not reported again as unrelated failures
+func (e *c20Env) renewAfter(c c20Case) {
+	if len(c.Oracle) > 0 || len(c.Oracle10) > 0 || !c.Finished {
+		e.close()
+		*e = *c20NewEnv()
+	}
 }
 
 // the payload of an arrival: a slice of the session's shared memory, written as the peer's Flush would
@@ -230,6 +260,9 @@ func c20Run(env *c20Env, c c20Case, mk func() vsChooser, maxSteps int) c20Case {
 	stepNo := 0
 	env.offs = nil
 	cb := &c20Cb{stream: s, script: c.Script, step: &stepNo, midYield: c.MidYield, bm: env.client.bufferManager, offs: &env.offs}
+	for _, e := range c.Inb {
+		cb.limit += len(e)
+	}
 	if c.Cb0 {
 		if err := s.SetCallbacks(cb); err != nil {
 			panic(err)
@@ -442,7 +475,7 @@ func c20Run(env *c20Env, c c20Case, mk func() vsChooser, maxSteps int) c20Case {
 	c.Final = []int64{int64(atomic.LoadUint32(&s.state)), int64(atomic.LoadUint32(&s.callbackInProcess)),
 		int64(atomic.LoadUint32(&s.callbackCloseState)), inTable, int64(cb.local), int64(cb.remote), nsent, ndata}
 	c.Recv = []int{}
-	if n := s.recvBuf.Len(); n > 0 {
+	if n := cb.c20See(s.recvBuf.Len()); n > 0 {
 		p, _ := s.recvBuf.Peek(n)
 		for _, b := range p {
 			c.Recv = append(c.Recv, int(b))
@@ -450,9 +483,11 @@ func c20Run(env *c20Env, c c20Case, mk func() vsChooser, maxSteps int) c20Case {
 	}
 	c.Pend = []int{}
 	for _, w := range s.pendingData.unread {
-		if sl, err := env.client.bufferManager.readBufferSlice(w.offset); err == nil {
+		if sl, err := env.client.bufferManager.readBufferSlice(w.offset); err == nil && len(c.Pend) <= cb.limit {
 			for _, b := range sl.data[sl.readIndex:sl.writeIndex] {
-				c.Pend = append(c.Pend, int(b))
+				if len(c.Pend) <= cb.limit {
+					c.Pend = append(c.Pend, int(b))
+				}
 			}
 		}
 	}
@@ -504,6 +539,9 @@ func c20Run(env *c20Env, c c20Case, mk func() vsChooser, maxSteps int) c20Case {
 	var allIn []int
 	for _, e := range c.Inb {
 		allIn = append(allIn, e...)
+	}
+	if cb.overrun > 0 {
+		or[fmt.Sprintf("order/once: recvBuf held %d bytes although only %d ever arrived", cb.overrun, cb.limit)] = true
 	}
 	if !isPrefix(c.Consumed, allIn) {
 		or["order/once: the bytes consumed by OnData are not a prefix of the bytes that arrived"] = true
@@ -903,8 +941,11 @@ func TestVerif_C20(t *testing.T) {
 		if budget.spent() {
 			return
 		}
+		t0 := time.Now()
 		res := c20Run(env, c, mk, max)
+		res.Ms = time.Since(t0).Milliseconds()
 		budget.note(res)
+		env.renewAfter(res)
 		o.emit(res)
 	}
 	// ---- random configurations, three schedule strategies ----
@@ -956,8 +997,11 @@ func TestVerif_C20(t *testing.T) {
 			if budget.spent() {
 				break
 			}
+			t0 := time.Now()
 			res := c20Run(env, c, odo.chooser, 400)
+			res.Ms = time.Since(t0).Milliseconds()
 			budget.note(res)
+			env.renewAfter(res)
 			if !res.Cmp && len(res.Oracle) == 0 && len(res.Oracle10) == 0 {
 				res.Steps = nil // keep the output small; the schedule is reproducible from the enumeration
 			}
